@@ -19,6 +19,12 @@ CHECKS = {
  "C09": dict(level="proof", technique="Lean 4 proofs about the loop models of generate / pop_acceptance / run counters (invariants, induction on the oracle list and on the generation count) + differential runs with a logging problem",
    text="Lean 4 proves for every N>=2, every oracle of children and every equality test that the generate loop returns exactly N pairwise unequal offspring whenever it returns (generate_size); that pop_acceptance keeps the population size and follows its three clauses for every flag vector and random pick (popAccept_size, popAccept_cases); and the run counters: NSGA-II N*G evaluations and generations 1..G of N designs, steady algorithms N*(G+1) evaluations and generations 0..G (induction on G). Elitism rests on the C03 truncation theorems. Tie to the code: real NSGA-II / eps-MOEA / OMOPSO / SMPSO runs over a grid of configurations with and without injected transient failures (evaluation count, tag histogram, per-generation distinctness, elitism and best-cost monotonicity evaluated on the recorded generations), GeneticAlgorithm.generate with scripted children, Selector.pop_acceptance with recorded random picks - all compared with the model.",
    note="The run-level counters are simple models; what carries weight there is the correspondence with real runs (a test). PSOGA not covered (not claimed by the statement). Lean kernel + standard axioms.", ref="5/C09"),
+ "C03": dict(level="proof", technique="Lean 4 proofs over an executable model (successive stable mergeSort passes with per-pass Forall2 invariants; sortedness of take k ++ drop k with Nodup/Perm counting; case analysis of the tournament) + differential / envelope correspondence",
+   text="18 Lean 4 theorems about an executable model of crowding_distance, nondominated_truncate/nondominated_cmp and TournamentSelector.select cover every clause of the statement for all fronts and populations, all k, every input order and every possible set() order and representative: crowding of small fronts, permutation of members, range [0,m], infinite extremes with ties, the order-theoretic interior formula without ties (crowd_formula, _inf, _sum), truncation size / no duplicates / rank first (under 'equal designs carry equal front numbers') / no survivor dominated / crowding second, tournament membership, rank and dominance clauses. Tie to the code: exact comparison of crowding values on generated fronts, envelope check of truncation (every clause evaluated on the observed survivors, then the model must reproduce them from a reconstructed set() order), tournament with recorded random draws.",
+   note="Front numbers are inputs here (that they are Pareto ranks is C02). Rank clause assumes copies of a design carry one front number (false without it because set() keeps the first copy). Finite crowding values within 1e-9 relative (IEEE rounding trusted). Tie to the code is a differential test. Lean kernel + standard axioms.", ref="5/C03"),
+ "C16": dict(level="proof", technique="Lean 4 proofs over the reals of formulas written once over a Num class (closed forms of the Python loops by induction, telescoping, cos^2+sin^2=1, arcsin construction for the onto clause) + Float-model differential test and identities evaluated on the implementation's outputs",
+   text="19 Lean 4 theorems over the real interpretation of the executable model of benchmark_pareto.py, for every m>=1, every number of variables and every point: DTLZ1 objectives sum to (1+g)/2, DTLZ2/3/4 vectors have norm 1+g, ZDT1 f2 = g(1-sqrt(f1/g)) with g = 1+9 mean, bi-objective f1*f2 = 1+x2 (x1 >= 0.1), all objectives non-negative on the box, and with the distance variables at 0.5 the image lies on and covers the simplex / non-negative unit sphere. Tie to the code: the same formulas run on Float in the driver are compared per objective with evaluate() on random, face, corner and near-front points (doubles shipped as bits), and the identities are evaluated on the implementation's own outputs.",
+   note="IEEE rounding, libm vs the real sin/cos/sqrt/pow and overflow are not proved (1e-9 agreement band). The tie to the code is a differential test. Lean kernel + standard axioms.", ref="5/C16"),
 }
 TODO = {}
 def main():
